@@ -125,6 +125,7 @@ def translate_ast(backend: str, a: ast.AST, keep_files: bool = False) -> Dict[st
             "includes": list(rec["body_include_files"]),
             "link_libraries": list(rec["link_libraries"]),
             "info_keys": sorted(rec.keys()),
+            "job_option_additions": list(rec["job_option_additions"]) if "job_option_additions" in rec else None,
             "treename": getattr(info.result_rep, "treename", None),
             "filename": getattr(info.result_rep, "filename", None),
             "main_script": info.main_script,
